@@ -100,7 +100,7 @@ class QuadricTensor(ProjectiveTensor, ABC):
 
     def __sub__(self, other: Tensor | npt.ArrayLike) -> Tensor:
         if not isinstance(other, PointTensor):
-            return super().__add__(other)
+            return super().__sub__(other)
 
         return translation(-other).apply(self)
 
